@@ -72,7 +72,9 @@ Scale scales(const ref::Ellipsoid& E, double lat2, double a12, bool exact) {
 
 J gen_geod(bool inverse) {
   int solver = (int)vf::g::irange(0, 2);
-  gg::Ell e = gg::ellipsoid(solver_exact(solver) ? gg::SERIES_WIDE : gg::SERIES_FULL);
+  // (the series solver as well on the wide range |f| <= 0.2 in a third of its cases: GeodesicLine has code that only runs
+  //  for |f| > 0.01, and self-consistency does not depend on the accuracy there)
+  gg::Ell e = gg::ellipsoid(solver_exact(solver) || vf::g::coin(1, 3) ? gg::SERIES_WIDE : gg::SERIES_FULL);
   J r = J::obj(); r["solver"] = J::integer(solver); r["a"] = J::num(e.a); r["f"] = J::num(e.f);
   if (inverse) { put_pair(r, pointpair(e.a, e.f)); }
   else {
@@ -311,6 +313,16 @@ template <class G, class Line> void pos_body(Verdict& v, const G& g, double lat1
   v.le(fabsl((L)a12 - (L)b12), 2 * tolp / std::min(E.a, E.b) / ref::DEG_L + 1e-14L * fabsl((L)a12), "Position(s) vs ArcPosition(a) a12 [deg]");
   v.le(fabsl((L)A[4] - (L)B[4]), 2 * tolp, "Position(s) vs ArcPosition(a) m12 [m]");
   v.le(std::max(fabsl((L)A[5] - (L)B[5]), fabsl((L)A[6] - (L)B[6])), 4 * (1e-15L * circ + tolp / std::min(E.a, E.b)), "Position(s) vs ArcPosition(a) M12/M21");
+  if (!arc) {
+    // distance -> returned arc -> ArcPosition: every output of Position(s) is computed from the arc length it returns, so
+    // addressing the point by that arc repeats the same computation; only the rounding of a12 to a double in degrees
+    // (eps |a12| deg, i.e. eps |a12| DEG max(a,b) metres) and ordinary round-off separate the two (seen < 3e-9 m; S-C12-m7
+    // left 1e-5 .. 1e-2 m between the reduced lengths for |f| >= 0.1)
+    L tq = 32 * 2.3e-16L * std::max(E.a, E.b) * circ;
+    v.le(ref::dist3(pa, pb), tq, "Position(s) vs ArcPosition(returned a12): point, round-off level [m]");
+    v.le(fabsl((L)A[4] - (L)B[4]), 4 * tq, "Position(s) vs ArcPosition(returned a12): m12, round-off level [m]");
+    v.le(std::max(fabsl((L)A[5] - (L)B[5]), fabsl((L)A[6] - (L)B[6])), 4 * tq / std::min(E.a, E.b), "Position(s) vs ArcPosition(returned a12): M12/M21, round-off level");
+  }
   // line vs solver.Direct: the same computation, so round-off only
   L tr = 64 * 2.3e-16L * std::max(E.a, E.b) * circ;
   v.le(ref::dist3(pa, pd), tr, "line.Position vs solver.Direct point [m]");
